@@ -311,6 +311,38 @@ func checkC16(c *Check) {
 		}
 	}
 
+	// ---- R7 where a directory is redirected to
+	c.Rule("R7", "E4 taint", "the target of the directory redirect is the CLEANED request path plus \"/\": the raw path reaches http.Redirect only through path.Clean (a raw \"//host/..\" is a scheme-relative URL that http.Redirect does not clean: an open redirect instead of the directory's own slash-terminated form)", 1)
+	{
+		n := 0
+		isRawPath := func(v ssa.Value) bool {
+			_, ns, ok := fieldPath(v)
+			return ok && len(ns) >= 2 && ns[len(ns)-1] == "Path" && ns[len(ns)-2] == "URL"
+		}
+		stop := map[string]bool{"path.Clean": true}
+		for _, fn := range withLits(st) {
+			for _, ci := range callsNamed(fn, "net/http.Redirect") {
+				n++
+				a := ci.Common().Args
+				if len(a) < 3 {
+					continue
+				}
+				key := p.FuncKey(fn) + ":redirect-target"
+				switch {
+				case derivesFrom(a[2], isRawPath, stop):
+					c.Bad(key, p.Pos(ci.Pos()), "the raw request path reaches the redirect target without path.Clean: \"//example.com/..\" opens the root directory but is redirected to the foreign host example.com")
+				case !derivesFrom(a[2], vCall("path.Clean"), nil):
+					c.Bad(key, p.Pos(ci.Pos()), "the redirect target is not derived from the cleaned request path")
+				default:
+					c.OK(key, p.Pos(ci.Pos()), "Location = path.Clean(URL.Path) + \"/\"", 1)
+				}
+			}
+		}
+		if n == 0 {
+			c.Anchor("the directory redirect (http.Redirect) of Static")
+		}
+	}
+
 	// ---- R5 what is sent
 	c.Rule("R5", "E3 provenance", "the reader handed to ServeContent is a file returned by the configured FileSystem.Open (the file itself or the index)", 1)
 	for _, sc := range callsNamed(H, "net/http.ServeContent") {
